@@ -100,6 +100,12 @@ strcmp(const char *a, const char *b)
         return 0;
     return (unsigned char)a[1] < (unsigned char)b[1] ? -1 : ((unsigned char)a[1] > (unsigned char)b[1] ? 1 : 0);
 }
+int
+strncmp(const char *a, const char *b, size_t n)
+{
+    (void)n; /* n == VSNAMELENMAX >= 2: the one-character names end before it */
+    return strcmp(a, b);
+}
 #endif
 
 #include "vattr.c"
